@@ -41,13 +41,16 @@ package qbft
 //@ func filterMsgs
 //@ props C02 C03 C04
 //@ pure
+//@ axiomatic 5
 //@ nopanic
 //@ ensures forall(k, 0, len(result), matches(result[k], typ, round, value, pr, pv) && exists(j, 0, len(msgs), msgs[j] == result[k]))
 //@ ensures distinctSources(result)
 //@ ensures forall(j, 0, len(msgs), matches(msgs[j], typ, round, value, pr, pv) ==> exists(k, 0, len(result), result[k].Source() == msgs[j].Source()))
 //@ ensures len(result) <= len(msgs)
+//@ ensures distinctSources(msgs) && forall(j, 0, len(msgs), matches(msgs[j], typ, round, value, pr, pv)) ==> len(result) == len(msgs)
 //@ canary len(result) < len(msgs)
 //@ loop 1 invariant len(resp) <= $i
+//@ loop 1 invariant distinctSources(msgs) && forall(j, 0, $i, matches(msgs[j], typ, round, value, pr, pv)) ==> len(resp) == $i
 //@ loop 1 invariant forall(k, 0, len(resp), matches(resp[k], typ, round, value, pr, pv) && exists(j, 0, $i, msgs[j] == resp[k]) && uniq.dedup[resp[k].Source()])
 //@ loop 1 invariant distinctSources(resp)
 //@ loop 1 invariant all(s, int64, uniq.dedup[s] ==> exists(k, 0, len(resp), resp[k].Source() == s))
@@ -214,6 +217,7 @@ package qbft
 //@ callreq t.Broadcast: a2 == MsgRoundChange ==> (len(a9) == 0 && a7 == 0 && a8 == zero(V)) || (len(a9) > 0 && len(a9) >= quorum(d) && distinctSources(a9) && allOf(a9, MsgPrepare, a7, a8))
 //@ callreq t.Broadcast: a2 == MsgPrePrepare ==> d.IsLeader(instance, round, process)
 //@ callreq t.Broadcast: a2 == MsgDecided ==> len(qCommit) > 0 && a6 == qCommitValue && a9 == qCommit
+//@ callreq t.Broadcast: a2 == MsgDecided ==> len(filterMsgs(a9, MsgCommit, a5, ptr(a6), nil, nil)) >= quorum(d)
 //@ callreq t.Broadcast: a2 == MsgPrePrepare || a2 == MsgPrepare || a2 == MsgCommit || a2 == MsgRoundChange || a2 == MsgDecided
 //@ callreq d.Decide: ncalls(d.Decide) == 0
 //@ callreq d.Decide: a3 == msg.Value() && a4 == msg.Round() && a5 == justification
@@ -227,6 +231,7 @@ package qbft
 //@ loop 1 invariant (len(qCommit) > 0 <==> ncalls(d.Decide) == 1) && (len(qCommit) == 0 <==> ncalls(d.Decide) == 0)
 //@ loop 1 invariant ppjCache != nil ==> d.IsLeader(instance, round, process)
 //@ loop 1 invariant len(qCommit) > 0 ==> timerChan == nil
+//@ loop 1 invariant len(qCommit) > 0 ==> len(filterMsgs(qCommit, MsgCommit, round, ptr(qCommitValue), nil, nil)) >= quorum(d)
 
 // ---- leader side: finding a justified quorum of ROUND-CHANGE messages (algorithm 4:1) -------------------
 
